@@ -78,7 +78,71 @@ type Exec struct {
 
 type writeLog struct {
 	cells map[*Cell]bool
-	heaps map[string]bool
+	heaps map[string]*heapW
+}
+
+type heapW struct {
+	whole bool
+	idx   []*Term
+}
+
+func (wl *writeLog) logHeap(name string, idx *Term) {
+	w := wl.heaps[name]
+	if w == nil {
+		w = &heapW{}
+		wl.heaps[name] = w
+	}
+	if idx == nil {
+		w.whole = true
+		return
+	}
+	for _, x := range w.idx {
+		if x == idx {
+			return
+		}
+	}
+	w.idx = append(w.idx, idx)
+}
+
+func (wl *writeLog) absorb(o *writeLog) {
+	for c := range o.cells {
+		wl.cells[c] = true
+	}
+	for n, w := range o.heaps {
+		if w.whole {
+			wl.logHeap(n, nil)
+		}
+		for _, x := range w.idx {
+			wl.logHeap(n, x)
+		}
+		if !w.whole && len(w.idx) == 0 {
+			wl.logHeap(n, nil)
+		}
+	}
+}
+
+// symsAfter reports whether t mentions a fresh symbol numbered above mark.
+func symsAfter(t *Term, mark int, seen map[int]bool) bool {
+	if seen[t.id] {
+		return false
+	}
+	seen[t.id] = true
+	if t.op == "const" {
+		if i := strings.LastIndex(t.name, "!"); i >= 0 {
+			n := 0
+			fmt.Sscanf(t.name[i+1:], "%d", &n)
+			if n > mark {
+				return true
+			}
+		}
+		return false
+	}
+	for _, a := range t.args {
+		if symsAfter(a, mark, seen) {
+			return true
+		}
+	}
+	return false
 }
 
 func (ex *Exec) note(kind, what string) {
@@ -121,6 +185,8 @@ func (ex *Exec) oblige(st *State, kind, name string, goal *Term, pos token.Pos) 
 	full := name
 	if n := ex.ordinal[name]; !strings.Contains(name, "#") || kindCounts(kind) {
 		full = fmt.Sprintf("%s#%d", name, n)
+	} else if n > 1 {
+		full = fmt.Sprintf("%s~%d", name, n)
 	}
 	o := &Oblig{Name: full, Kind: kind, NAssump: len(ex.assumps), Guard: st.guard, Goal: goal, Where: ex.posString(pos)}
 	ex.obligs = append(ex.obligs, o)
@@ -150,9 +216,36 @@ func (ex *Exec) heapSet(st *State, name string, v *Term) {
 	if _, ok := st.heap[name]; !ok {
 		ex.heapGet(st, name, v.sort)
 	}
+	prev := st.heap[name]
 	st.heap[name] = v
 	if ex.wlog != nil {
-		ex.wlog.heaps[name] = true
+		// recognise store chains over the previous value
+		cur := v
+		var idxs []*Term
+		ok := false
+		for i := 0; i < 64; i++ {
+			if cur == prev {
+				ok = true
+				break
+			}
+			if cur.op != "store" {
+				break
+			}
+			idxs = append(idxs, cur.args[1])
+			cur = cur.args[0]
+		}
+		if !ok && prev.op == "store" && cur == prev.args[0] {
+			// Store() collapsed a write to the same index as the previous top store
+			ok = true
+			idxs = append(idxs, prev.args[1])
+		}
+		if ok {
+			for _, ix := range idxs {
+				ex.wlog.logHeap(name, ix)
+			}
+		} else {
+			ex.wlog.logHeap(name, nil)
+		}
 	}
 }
 
@@ -813,7 +906,7 @@ func (ex *Exec) discover(fr *Frame, h *ssa.BasicBlock, in *State, back map[[2]in
 	saveA, saveO, saveF := len(ex.assumps), len(ex.obligs), TS.fresh
 	_ = saveF
 	saveLog := ex.wlog
-	wl := &writeLog{cells: map[*Cell]bool{}, heaps: map[string]bool{}}
+	wl := &writeLog{cells: map[*Cell]bool{}, heaps: map[string]*heapW{}}
 	ex.wlog = wl
 	ex.dry++
 	// private copies of frame bookkeeping
@@ -861,12 +954,7 @@ func (ex *Exec) discover(fr *Frame, h *ssa.BasicBlock, in *State, back map[[2]in
 				_ = hOrd
 				// nested loop: discover recursively and havoc what it writes
 				inner := ex.discover(fr, b, cur, back)
-				for c := range inner.cells {
-					wl.cells[c] = true
-				}
-				for n := range inner.heaps {
-					wl.heaps[n] = true
-				}
+				wl.absorb(inner)
 				cur = ex.havocFor(cur, inner)
 			}
 			out := ex.execBlock(fr, b, cur)
@@ -876,12 +964,7 @@ func (ex *Exec) discover(fr *Frame, h *ssa.BasicBlock, in *State, back map[[2]in
 		}
 	}()
 	if saveLog != nil {
-		for c := range wl.cells {
-			saveLog.cells[c] = true
-		}
-		for n := range wl.heaps {
-			saveLog.heaps[n] = true
-		}
+		saveLog.absorb(wl)
 	}
 	return wl
 }
@@ -936,8 +1019,36 @@ func (ex *Exec) loopHead(fr *Frame, h *ssa.BasicBlock, in *State, back map[[2]in
 		}
 	}
 	wl := ex.discover(fr, h, in, back)
-	// range-over-map: the seen set is loop state
+	mark := TS.fresh
 	ns := ex.havocFor(in, wl)
+	// second round from the havocked state: which heap indices are written, and are they loop-invariant?
+	wl2 := ex.discover(fr, h, ns, back)
+	for n, w := range wl2.heaps {
+		if w.whole || len(w.idx) == 0 || len(w.idx) > 8 {
+			continue
+		}
+		if w1 := wl.heaps[n]; w1 == nil || w1.whole {
+			continue
+		}
+		inv := true
+		for _, ix := range w.idx {
+			if symsAfter(ix, mark, map[int]bool{}) {
+				inv = false
+				break
+			}
+		}
+		srt, ok := ex.heapSrt[n]
+		pre, ok2 := in.heap[n]
+		if !inv || !ok || !ok2 {
+			continue
+		}
+		_, es := srt.splitArr()
+		cur := pre
+		for _, ix := range w.idx {
+			cur = Store(cur, ix, Fresh(n+"_at", es))
+		}
+		ns.heap[n] = cur
+	}
 	for i, c := range invs {
 		_ = i
 		env := ex.loopEnv(fr, h, ns, li)
